@@ -178,6 +178,11 @@ func c20Specs(c *run.Ctx) []built {
 			}})
 		}
 	}
+	cand = append(cand,
+		spec.Spec{Name: "crossorigin-url", Base: "new", Calls: []C{attrsOn([]string{"src", "alt"}, "", "img", "audio", "video"), attrsOn([]string{"href"}, "", "link", "a", "area"),
+			{Op: "AllowStandardURLs"}, opt("RequireCrossOriginAnonymous", true), attrsOn([]string{"target"}, "", "area", "a"), opt("AddTargetBlankToFullyQualifiedLinks", true)}},
+		spec.Spec{Name: "crossorigin-admitted", Base: "new", Calls: []C{attrsOn([]string{"src", "crossorigin"}, "", "img", "audio"), opt("RequireCrossOriginAnonymous", true), els("b")}},
+	)
 	k := 2
 	if !c.Quick() {
 		k = 3
